@@ -24,6 +24,7 @@ def run(tier, seed, replay=None):
     if replay:
         cases = [lanelib.case_from_json(c) for c in json.load(open(replay))['case']['cases']]
     else:
+        lanelib.gen_lane_model(ck, wd)
         base = open(os.path.join(wd, 'MC_MatChain.cfg')).read()
         cfg = base.replace('AllB = FALSE', 'AllB = %s' % ('FALSE' if tier == 'quick' else 'TRUE'))
         open(os.path.join(wd, 'MC_MatChain_run.cfg'), 'w').write(cfg)
